@@ -275,6 +275,12 @@ fn rsq_cases(r: &mut Rng, t: Tier, ops: &[&str], extra: &[&str], n_cases: usize,
                         c.l(format!("q 0 {} {}", op, s));
                     }
                 }
+                "fwdhist" | "fwdhist_into" => {
+                    for _ in 0..3 {
+                        let hl = r.range(1, 40) as usize;
+                        c.l(format!("q 0 {} {}", op, iter_history(r, hl, false)));
+                    }
+                }
                 _ => c.l(format!("q 0 {}", op)),
             }
         }
@@ -630,6 +636,30 @@ fn bvm_history_cases(r: &mut Rng, t: Tier, n_cases: usize, out: &mut Vec<Case>) 
     }
 }
 
+/// a history over the iterator-call letters (see `iterhist` / `fwdhist` in interp.rs): `n` next, `b` next_back,
+/// `l` len, `t..z` nth(1,2,5,64,255,256,1000), capitals nth_back, `c` count, `a` last
+pub fn iter_history(r: &mut Rng, hl: usize, double_ended: bool) -> String {
+    let small = ['t', 'u', 'v'];
+    let large = ['w', 'x', 'y', 'z'];
+    let style = r.below(4);
+    (0..hl)
+        .map(|_| {
+            let roll = r.below(100);
+            let nth = |r: &mut Rng| if style == 3 || r.chance(1, 4) { *r.pick(&large) } else { *r.pick(&small) };
+            match roll {
+                0..=39 => 'n',
+                40..=59 if double_ended => 'b',
+                60..=67 if double_ended => 'l',
+                68..=77 if double_ended => nth(r).to_ascii_uppercase(),
+                78..=79 => 'c',
+                80..=81 => 'a',
+                82..=99 => nth(r),
+                _ => 'n',
+            }
+        })
+        .collect()
+}
+
 fn qv_history_cases(r: &mut Rng, t: Tier, n_cases: usize, out: &mut Vec<Case>) {
     let tys = ["i8", "i16", "i32", "i64", "i128", "isize", "u8", "u16", "u32", "u64", "u128", "usize"];
     for i in 0..n_cases {
@@ -685,6 +715,13 @@ fn qv_history_cases(r: &mut Rng, t: Tier, n_cases: usize, out: &mut Vec<Case>) {
         }
         if i % 2 == 0 {
             c.l("q 0 into_iter");
+        }
+        for _ in 0..3 {
+            let hl = r.range(1, 40) as usize;
+            c.l(format!("q 0 fwdhist {}", iter_history(r, hl, false)));
+            if i % 2 == 0 {
+                c.l(format!("q 0 fwdhist_into {}", iter_history(r, hl, false)));
+            }
         }
         c.l("dump 0");
         let mut poss: Vec<usize> = vec![0, 1, n / 2, n.saturating_sub(1), n, n + 1, 127, 128, 129, 255, 256, 257, usize::MAX];
@@ -1102,6 +1139,11 @@ pub fn cases(prop: &str, t: Tier, seed: u64) -> Vec<Case> {
                         .collect();
                     c.l(format!("q 0 iterhist {}", h));
                 }
+                // the provided methods the std adaptors are built from (nth / nth_back / count / last)
+                for _ in 0..4 {
+                    let hl = r.range(1, 60) as usize;
+                    c.l(format!("q 0 iterhist {}", iter_history(r, hl, true)));
+                }
                 out.push(c);
             }
             for i in 0..scale(t, 30, 200) {
@@ -1110,16 +1152,28 @@ pub fn cases(prop: &str, t: Tier, seed: u64) -> Vec<Case> {
                 c.l("q 0 into_iter");
                 c.l("q 0 iterlen");
                 c.l("q 0 iterlen_ref");
+                for _ in 0..3 {
+                    let hl = r.range(1, 40) as usize;
+                    c.l(format!("q 0 fwdhist {}", iter_history(r, hl, false)));
+                    c.l(format!("q 0 fwdhist_into {}", iter_history(r, hl, false)));
+                }
                 c.l("q 0 ones");
                 c.l("q 0 zeros");
+                for p in [0usize, 1, _n / 2, _n.saturating_sub(1), _n, _n + 1, 64, 512] {
+                    c.l(format!("q 0 ones_after {}", p));
+                    c.l(format!("q 0 zeros_after {}", p));
+                }
                 c.l(format!("mk 1 da {} 0", i % 2));
+                c.l("q 1 ones_after 0");
+                c.l(format!("q 1 zeros_after {}", _n / 3));
                 c.l("q 1 iter");
+                c.l(format!("q 1 fwdhist {}", iter_history(r, 30, false)));
                 c.l("q 1 ones");
                 c.l("q 1 zeros");
                 out.push(c);
             }
             qv_history_cases(r, t, scale(t, 24, 120), &mut out);
-            rsq_cases(r, t, &["iter"], &[], scale(t, 10, 60), &mut out);
+            rsq_cases(r, t, &["iter", "fwdhist", "fwdhist_into"], &[], scale(t, 10, 60), &mut out);
         }
         "C13" => qv_history_cases(r, t, scale(t, 120, 900), &mut out),
         "C14" | "C16" => {
@@ -1389,7 +1443,8 @@ pub fn cases(prop: &str, t: Tier, seed: u64) -> Vec<Case> {
                 c.l("eq 0 3");
                 c.l("mk 4 copy 0");
                 c.l("eq 0 4");
-                c.l(format!("mk 5 rsq {} {} 1", b, vals));
+                // a different sequence (one more symbol): must not compare equal
+                c.l(if vals.is_empty() { format!("mk 5 rsq {} 1", b) } else { format!("mk 5 rsq {} {} 1", b, vals) });
                 c.l("eq 0 5");
                 out.push(c);
             }
